@@ -1035,8 +1035,11 @@ class StrategyBase(Node):
                 delta = weight * base - c.weight * self.notional_value
                 c.allocate(delta, update=update)
         else:
-            delta = weight - c.weight
-            c.allocate(delta * base, update=update)
+            # bring the child to weight * base. What it holds today is its
+            # current weight of the strategy's *current* value, which differs
+            # from base when a cash fraction is being set aside.
+            delta = weight * base - c.weight * self.value
+            c.allocate(delta, update=update)
 
     @cy.locals(update=cy.bint)
     def close(self, child, update=True):
